@@ -11,16 +11,24 @@
 (* The data are presented in an arbitrary order `perm`; the result must not depend on   *)
 (* it.  MaskSpace = "sorted" is the deviation "masks refer to the sorted order"         *)
 (* (the PointsPerIntervalSlicer defect) and must violate the invariants.                *)
+(* A dimension may be fitted with one weight per observation (option "wlsqarr"): the    *)
+(* weight of row r is identified with r, the array is presented in the same order as    *)
+(* the rows, and each interval fit must receive exactly the weights of its own rows.    *)
+(* WeightSpace = "unsliced" is the deviation "every interval is handed the whole array   *)
+(* and indexes it with its own sort indices", i.e. it uses the weights of the first n_k  *)
+(* positions (defect D46); it must violate IntervalOwnWeights.                           *)
 EXTENDS SlicingOps, TLC
 
-CONSTANTS NRows, MaxV, Upw, MinPts, NDim, MaskSpace
+CONSTANTS NRows, MaxV, Upw, MinPts, NDim, MaskSpace, WeightSpace,
+          Opts       \* fit option tokens a dimension may have
 
 VARIABLES vals,      \* vals[d][r]: lattice value of row r in conditioning column d (d in 1..NDim-1)
           perm,      \* perm[j] = row presented at position j
           cond,      \* cond[i] in 0..i-1 for i in 2..NDim (0 = unconditional)
-          opts,      \* opts[i]: fit option token of dimension i ("mle", "wlsq", "none" = entry is None)
+          opts,      \* opts[i]: fit option token of dimension i ("mle", "wlsq", "wlsqarr", "none" = entry is None)
           dim, pc,
-          ivals,     \* ivals[i] = sequence of [idx, rows, opt] for the kept intervals of dimension i
+          ivals,     \* ivals[i] = sequence of [idx, rows, opt, wts] for the kept intervals of dimension i
+                     \* (wts = rows whose weights the interval fit received; {} without weight array)
           dep        \* dep[i] = [x, y] handed to the dependence functions of dimension i
 
 vars == <<vals, perm, cond, opts, dim, pc, ivals, dep>>
@@ -32,7 +40,7 @@ OptOf(i) == IF opts[i] = "none" THEN "mle" ELSE opts[i]
 Init == /\ vals \in [1..(NDim - 1) -> [Rows -> 0..MaxV]]
         /\ perm \in Perms
         /\ cond \in {c \in [2..NDim -> 0..(NDim - 1)] : \A i \in 2..NDim : c[i] < i}
-        /\ opts \in [1..NDim -> {"none", "wlsq"}]
+        /\ opts \in [1..NDim -> Opts]
         /\ dim = 1 /\ pc = "next"
         /\ ivals = [i \in 1..NDim |-> <<>>] /\ dep = [i \in 1..NDim |-> <<>>]
 
@@ -54,11 +62,16 @@ MasksFor(c) ==
 FitDim ==
     /\ pc = "next" /\ dim <= NDim
     /\ IF dim = 1 \/ cond[dim] = 0
-       THEN /\ ivals' = [ivals EXCEPT ![dim] = << [idx |-> 0, rows |-> Rows, opt |-> OptOf(dim)] >>]
+       THEN /\ ivals' = [ivals EXCEPT ![dim] = << [idx |-> 0, rows |-> Rows, opt |-> OptOf(dim),
+                                                   wts |-> IF OptOf(dim) = "wlsqarr" THEN Rows ELSE {}] >>]
             /\ dep' = dep
        ELSE LET m == MasksFor(cond[dim])
                 keep == {k \in 1..Len(m) : Cnt(m[k]) >= MinPts}
-                iv == [k \in 1..Len(m) |-> [idx |-> k, rows |-> {perm[j] : j \in Ones(m[k])}, opt |-> OptOf(dim)]]
+                iv == [k \in 1..Len(m) |->
+                         [idx |-> k, rows |-> {perm[j] : j \in Ones(m[k])}, opt |-> OptOf(dim),
+                          wts |-> IF OptOf(dim) # "wlsqarr" THEN {}
+                                  ELSE IF WeightSpace = "sliced" THEN {perm[j] : j \in Ones(m[k])}
+                                  ELSE {perm[j] : j \in 1..Cnt(m[k])}]]
                 kept == SelectIdx(iv, keep, 1)
             IN /\ ivals' = [ivals EXCEPT ![dim] = kept]
                /\ dep' = [dep EXCEPT ![dim] =
@@ -92,6 +105,12 @@ DepFitInputs ==
        /\ Len(dep[i].x) = Len(ivals[i])
        /\ \A t \in 1..Len(ivals[i]) : dep[i].y[t] = ivals[i][t].rows
                                       /\ dep[i].x[t] = RefQ("center", ivals[i][t].idx, 0, Upw)
+
+(* per-observation weights travel with their observations *)
+IntervalOwnWeights ==
+    \A i \in 1..NDim : i < dim =>
+       \A t \in 1..Len(ivals[i]) :
+          ivals[i][t].wts = IF OptOf(i) = "wlsqarr" THEN ivals[i][t].rows ELSE {}
 
 OptionsPerDim ==
     \A i \in 1..NDim : i < dim => \A t \in 1..Len(ivals[i]) : ivals[i][t].opt = OptOf(i)
